@@ -11,6 +11,8 @@ partial def decodeRe (s : Sexp) : Regex.Re :=
       | [lo, hi] => (lo.toNat, hi.toNat)
       | _ => (0, 0))
   | some "any", _ => .any
+  | some "bol", _ => .bol
+  | some "eol", _ => .eol
   | some "eps", _ => .eps
   | some "seq", [a, b] => .seq (decodeRe a) (decodeRe b)
   | some "alt", [a, b] => .alt (decodeRe a) (decodeRe b)
